@@ -34,7 +34,7 @@ import typing
 import zlib
 
 from vf import c19_twin as tw
-from vf.core import Bag, Ctx, HarnessError
+from vf.core import Bag, Ctx, HarnessError, load_known_findings, match_finding
 
 # ====================================================================================================== O1 grammar
 LSTRIP_ON = ("lstrip_blocks", "trim+lstrip")
@@ -320,7 +320,7 @@ _I_STAR = [f.name for f in FRAGMENTS].index("c_star")
 def o1_work(tpls: typing.List[typing.Tuple[Tpl, typing.Tuple[bool, ...]]]) -> dict:
     bag = Bag()
     r = {"cases": 0, "cases_autoescape": 0, "evals": 0, "nontrivial": 0, "both_ok": 0, "both_raise": 0}
-    r.update(family_mismatch=0, escaping_observable=0)
+    r.update(family_mismatch=0, escaping_observable=0, stock_rendered=0, stock_raised=0)
     outcomes: typing.Set[int] = set()
     minimized = 0
     samples: typing.List[dict] = []
@@ -338,6 +338,7 @@ def o1_work(tpls: typing.List[typing.Tuple[Tpl, typing.Tuple[bool, ...]]]) -> di
                 for ci, (b, s) in enumerate(zip(bs, ss)):
                     r["evals"] += 1
                     kind = o1_compare(b, s)
+                    r["stock_rendered" if s[0] == "ok" else "stock_raised"] += 1  # oracle side (vacuity guards)
                     if s[0] == "ok":
                         outcomes.add(_h(s[1]))
                         if s[1] != norm:
@@ -616,6 +617,14 @@ def o2_eval(case: dict, ctx_ids: typing.Sequence[int], st: typing.Optional[dict]
         if t[0] == "err":
             bump("twin_reference_raises")
             continue
+        if t[1].count("\x01") != t[1].count("\x02") or len(re.split("[\x01\x02]", t[1])) % 2 != 1:
+            bump("twin_reference_malformed")  # nothing to compare with; the guards below see the missing comparisons
+            continue
+        bump("twin_reference_rendered")  # oracle side (vacuity guards)
+        if ae and ("&lt;" in t[1] or "&amp;" in t[1] or "&#3" in t[1]):
+            bump("autoescape_expected_text_has_escapes")
+        if ae and ("<i>" in t[1] or "<u a" in t[1] or "<a href" in t[1] or "<c>" in t[1]):
+            bump("autoescape_expected_text_has_unescaped_markup")
         segs = [seg_candidates(p)[0] for p in re.split("[\x01\x02]", t[1])[1::2]]
         if any(len(x) >= 2 for x in segs) and s["ws_eff"]:
             bump("nontrivial")
@@ -633,10 +642,6 @@ def o2_eval(case: dict, ctx_ids: typing.Sequence[int], st: typing.Optional[dict]
             )
             continue
         bump("twin_compared")
-        if ae and ("&lt;" in m[1] or "&amp;" in m[1] or "&#3" in m[1]):
-            bump("autoescape_escaped_text_observable")
-        if ae and ("<i>" in m[1] or "<u a" in m[1] or "<a href" in m[1] or "<c>" in m[1]):
-            bump("autoescape_unescaped_markup_observable")
         if not twin_match(m[1], t[1]):
             found.append(
                 (
@@ -658,6 +663,7 @@ def o2_eval(case: dict, ctx_ids: typing.Sequence[int], st: typing.Optional[dict]
             if pp[0] == "err":
                 bump("plain_construct_raises")
                 continue
+            bump("plain_construct_rendered")  # oracle side (vacuity guards)
             if mm[0] == "err":
                 found.append(
                     (
@@ -970,6 +976,8 @@ def o3_work(_: typing.Any) -> dict:
                             "placement": tpl,
                         }
                         st["assert_evals"] += 1
+                        expect = "assert_expected_to_pass" if _r(_v) else "assert_expected_to_raise"
+                        st[expect] = st.get(expect, 0) + 1  # oracle side (vacuity guards)
                         ev = o3_assert_eval(case)
                         fam = case.pop("_family", None)
                         if ev is not None:
@@ -1092,7 +1100,7 @@ def run(ctx: Ctx) -> int:
 
     # -------- merge
     tot = {"cases": 0, "cases_autoescape": 0, "evals": 0, "nontrivial": 0, "both_ok": 0, "both_raise": 0}
-    tot.update(family_mismatch=0, escaping_observable=0)
+    tot.update(family_mismatch=0, escaping_observable=0, stock_rendered=0, stock_raised=0)
     count = {"compiles": 0, "renders": 0}
     outcomes: typing.Set[int] = set()
     o2st: typing.Dict[str, int] = {}
@@ -1137,31 +1145,37 @@ def run(ctx: Ctx) -> int:
         if ev is None or (ev[0] != v.sig and "<not minimised" not in str(v.sig.get("feature"))):
             raise HarnessError(f"violation did not reproduce from its recorded case: {v.sig} {v.case} -> {ev}")
 
-    # -------- vacuity guards
+    # -------- vacuity guards: computed from the ORACLE side only (stock engine, plain construct, reference filter,
+    # Python reference), never from the output under test; and a guard never hides a violation: when there is one
+    # that is not a listed finding the run reports it (exit 1) and the failed guards are only recorded.
     need = {
-        "o1 both engines rendered": tot["both_ok"],
-        "o1 both engines raised": tot["both_raise"],
-        "o2 twin comparisons": o2st.get("twin_compared", 0),
-        "o2 direct comparisons": o2st.get("direct_compared", 0),
-        "o2 multi-line renderings with non-empty indentation": o2st.get("nontrivial", 0),
-        "o2 renderings containing a blank line": o2st.get("segments_with_blank_line", 0),
-        "o1 autoescape results with escaped text": tot["escaping_observable"],
-        "o2 autoescape renderings with escaped text": o2st.get("autoescape_escaped_text_observable", 0),
-        "o2 autoescape renderings with markup kept unescaped": o2st.get("autoescape_unescaped_markup_observable", 0),
-        "o3 assertions that raised": o3st.get("assert_raised", 0),
-        "o3 assertions that passed": o3st.get("assert_passed", 0),
-        "o3 usequery distinct outputs (>=6)": int(o3st.get("usequery_distinct_outputs", 0) >= 6),
+        "o1 templates stock rendered": tot["stock_rendered"],
+        "o1 templates stock rejected": tot["stock_raised"],
+        "o2 twin references rendered": o2st.get("twin_reference_rendered", 0),
+        "o2 plain constructs rendered (direct formula)": o2st.get("plain_construct_rendered", 0),
+        "o2 expected multi-line renderings with non-empty indentation": o2st.get("nontrivial", 0),
+        "o2 expected renderings containing a blank line": o2st.get("segments_with_blank_line", 0),
+        "o1 autoescape: stock results with escaped text": tot["escaping_observable"],
+        "o2 autoescape: expected texts with escapes": o2st.get("autoescape_expected_text_has_escapes", 0),
+        "o2 autoescape: expected texts with unescaped markup": o2st.get("autoescape_expected_text_has_unescaped_markup", 0),
+        "o3 assertions expected to raise": o3st.get("assert_expected_to_raise", 0),
+        "o3 assertions expected to pass": o3st.get("assert_expected_to_pass", 0),
+        "o3 usequery distinct reference outputs (>=6)": int(o3st.get("usequery_distinct_outputs", 0) >= 6),
     }
-    for k, v in need.items():
-        if not v:
-            raise HarnessError(f"vacuous exploration: {k} = {v}")
-    marker_works = tw.render("bundled", "plain", "lf", "  {{* m }}", CTXS[:1])[0] == ("ok", "  l1\n  l2\n\n  l4")
+    failed = [f"{k} = {v}" for k, v in need.items() if not v]
     removed = tw.pristine_info.get("alternatives_removed", 0)
-    if marker_works and not removed:
-        raise HarnessError("the pristine engine could not be derived: no marker alternative found in the root regex")
+    lexer_src = (tw.REPO / "src/nunavut/jinja/jinja2/lexer.py").read_text(encoding="utf-8")
+    if "*%s\\*" in lexer_src and not removed:  # the marker alternatives exist in the source but the surgery found none
+        failed.append("pristine engine not derived: no marker alternative found in the compiled root regex")
+    findings = load_known_findings(ctx.pid)
+    unlisted = [v for v in ctx.bag.v.values() if match_finding(findings, v) is None]
+    if failed and not unlisted:
+        raise HarnessError("vacuous exploration: " + "; ".join(failed))
+    if failed:
+        ctx.stats["vacuity_guards_failed_but_violations_reported"] = failed
 
     evals = tot["evals"] + o2st.get("evals", 0) + o3st.get("assert_evals", 0) + o3st.get("usequery_evals", 0)
-    nontrivial = tot["nontrivial"] + o2st.get("nontrivial", 0) + o3st.get("assert_raised", 0)
+    nontrivial = tot["nontrivial"] + o2st.get("nontrivial", 0) + o3st.get("assert_expected_to_raise", 0)
     ctx.stats.update(
         template_compilations=count["compiles"],
         renders=count["renders"],
@@ -1195,7 +1209,7 @@ def run(ctx: Ctx) -> int:
         "templates are enumerated structurally and de-duplicated by source text, so evaluations are distinct. "
         "Non-trivial = O1: stock rendered the template and the text differs from the template source (some tag did "
         "something); O2: the plain construct rendered >=2 lines and the indentation in front of the marker is not "
-        "empty (prefixing is observable beyond the first line); O3: assertions that raised.",
+        "empty (prefixing is observable beyond the first line); O3: assertions the reference expects to raise.",
         "bound_completed": f"O1: {len(o1) - o1a_n} of {o1_total} templates (all sequences of <=3 of {len(FRAGMENTS)} "
         f"fragments, <=2 fragments in each of {len(WRAPPERS)} wrappers, 1 fragment in each ordered wrapper pair) x "
         f"{len(tw.FLAGS)} flag sets x LF/CRLF x {len(CTXS)} contexts, plus the autoescape sub-space {o1a_n} of {o1a_total} "
